@@ -5,7 +5,7 @@
 Require Extraction.
 Require ExtrOcamlBasic.
 From Sameold Require Import Base.Bytes Model.Header Model.Combiner Model.IssueTime Model.Events
-  Model.Framer Model.Squelch Model.Assembler Model.Receiver Model.ResetShape Model.Config Model.App.
+  Model.Framer Model.Squelch Model.Assembler Model.Receiver Model.ResetShape Model.Config Model.App Model.Input.
 Extraction Language OCaml.
 Set Extraction KeepSingleton.
 Extraction "Extract/model.ml"
@@ -30,4 +30,4 @@ Extraction "Extract/model.ml"
   Receiver.process Receiver.run_core Receiver.next_message Receiver.flush
   ResetShape.receiver_reset ResetShape.fresh ResetShape.config_of
   Config.builder_new Config.apply_calls Config.build BinInt.Z.leb
-  App.run App.build_env.
+  App.run App.build_env Input.all_samples.
